@@ -214,6 +214,21 @@ class MergeNameParts(_NameTransformerMiddleware):
             raise ValueError(f"""Expected "first" or "last" style, got {self.style}. """)
 
 
+# Control sequences of accented and foreign characters which determine
+#   the case of a special character on their own (as in BibTeX).
+_FOREIGN_CHARACTER_CASES = {
+    "i": 0, "j": 0, "oe": 0, "OE": 1, "ae": 0, "AE": 1, "aa": 0,
+    "AA": 1, "o": 0, "O": 1, "l": 0, "L": 1, "ss": 0,
+}  # fmt: skip
+
+
+def _foreign_character_case(controlseq_name: List[str], case: int) -> int:
+    """The case of a word after the control sequence of a special character ended."""
+    if case == -1:
+        return _FOREIGN_CHARACTER_CASES.get("".join(controlseq_name), -1)
+    return case
+
+
 def parse_single_name_into_parts(name, strict=True):
     """
     Parse a name into its constituent parts: First, von, Last, and Jr.
@@ -281,6 +296,7 @@ def parse_single_name_into_parts(name, strict=True):
     bracestart = False  # Will the next character be the first within a brace?
     controlseq = True  # Are we currently processing a control sequence?
     specialchar = None  # Are we currently processing a special character?
+    controlseq_name = []  # Letters of the special character's control sequence.
 
     # Using an iterator allows us to deal with escapes in a simple manner.
     nameiter = iter(name)
@@ -293,22 +309,38 @@ def parse_single_name_into_parts(name, strict=True):
                 # BibTeX doesn't allow whitespace escaping. Copy the slash and fall
                 # through to the normal case to handle the whitespace.
                 if escaped in whitespace:
+                    if bracestart and level == 1:
+                        # A special character with an empty control sequence.
+                        controlseq = False
+                        specialchar = True
                     word.append(char)
                     char = escaped
 
                 else:
-                    # Is this the first character in a brace?
-                    if bracestart:
-                        bracestart = False
+                    # A backslash ends the control sequence of a special character.
+                    if controlseq and specialchar and not bracestart:
+                        controlseq = False
+                        case = _foreign_character_case(controlseq_name, case)
+
+                    # Is this the first character in a top-level brace?
+                    # (Only those are special characters, nested ones are not.)
+                    if bracestart and level == 1:
                         controlseq = escaped.isalpha()
+                        controlseq_name = [escaped]
                         specialchar = True
 
                     # Can we use it to determine the case?
-                    elif (case == -1) and escaped.isalpha():
+                    # (Not within a regular brace, whose content is caseless.)
+                    elif (
+                        (case == -1)
+                        and escaped.isalpha()
+                        and (level == 0 or (specialchar and not controlseq))
+                    ):
                         if escaped.isupper():
                             case = 1
                         else:
                             case = 0
+                    bracestart = False
 
                     # Copy the escape to the current word and go to the next
                     # character in the input.
@@ -325,9 +357,14 @@ def parse_single_name_into_parts(name, strict=True):
         if char == "{":
             level += 1
             word.append(char)
+            if specialchar:
+                # A brace within a special character belongs to it.
+                if controlseq:
+                    controlseq = False
+                    case = _foreign_character_case(controlseq_name, case)
+                continue
             bracestart = True
             controlseq = False
-            specialchar = False
             continue
 
         # All the below cases imply this (and don't test its previous value).
@@ -344,8 +381,11 @@ def parse_single_name_into_parts(name, strict=True):
                 word.insert(0, "{")
 
             # Update the state, append the character, and move on.
-            controlseq = False
-            specialchar = False
+            if controlseq:
+                controlseq = False
+                case = _foreign_character_case(controlseq_name, case)
+            if not level:
+                specialchar = False
             word.append(char)
             continue
 
@@ -353,8 +393,11 @@ def parse_single_name_into_parts(name, strict=True):
         if level:
             # Is this the end of a control sequence?
             if controlseq:
-                if not char.isalpha():
+                if char.isalpha():
+                    controlseq_name.append(char)
+                else:
                     controlseq = False
+                    case = _foreign_character_case(controlseq_name, case)
 
             # If it's a special character, can we use it for a case?
             elif specialchar:
